@@ -236,12 +236,12 @@ class C12(Prop):
         dp_model = replies[1] if case["type"] == "soc" else None
         for fname, mrep in zip(fnames, replies[(2 if case["type"] == "soc" else 1):]):
             cap = obs["captures"][fname]
-            mine, theirs = Counter(ilpcap.model_constraints(mrep)), Counter(cap["constraints"])
+            mine, theirs = set(ilpcap.model_constraints(mrep)), set(cap["constraints"])     # as sets: repeats are drift
             if mine != theirs:
-                diff = list((theirs - mine).items())[:2] + list((mine - theirs).items())[:2]
+                diff = list(theirs - mine)[:2] + list(mine - theirs)[:2]
                 out.append(Problem("disagreement", case, f"{fname}: the ILP handed to the solver differs from the model's "
-                                   f"constraint system ({sum((theirs - mine).values())} extra, "
-                                   f"{sum((mine - theirs).values())} missing), e.g. {diff}", "model/ilp-constraints"))
+                                   f"constraint system ({len(theirs - mine)} extra, "
+                                   f"{len(mine - theirs)} missing), e.g. {diff}", "model/ilp-constraints"))
             elif mrep["solutionFeasible"] is False:
                 out.append(Problem("disagreement", case, f"{fname}: the solver's (rounded) solution violates the model's "
                                    "constraints", "model/ilp-solution"))
